@@ -1,17 +1,22 @@
-import PolyVerif.Lemmas.LocationBuild
+import PolyVerif.Lemmas.LocationRep
 /-
 C02 — Feature sequences follow INSDC location semantics.
 
 Model: `Model/Location.lean` (`parseLocation`, `getSeq` = getFeatureSequence, `buildLoc` =
 BuildLocationString).  Spec: `Spec/Insdc.lean` (`Loc`, `denote`, `ends`, `print`, `insdcParse`,
-`embed`).  Every theorem quantifies over ALL location trees — any nesting depth, any number of
-operands — whose positions lie on the parent (`InRange`) and whose joins have ≥ 2 operands
-(`Arity`), and over all parents.
+`insdcLenient`, `Rep`, `embed`, `embedV`).  Every theorem quantifies over ALL location trees —
+any nesting depth, any number of operands — whose positions lie on the parent (`InRange`) and
+whose joins have ≥ 2 operands (`Arity`), over all parents, and ("assembled as a structure") over
+EVERY structure `p` with `Rep p l`: join nodes with or without the `Join` flag, complements merged
+into the operand's node or as wrapper nodes, pass-through nodes; inner-node coordinates and flags
+arbitrary.
 
 One clause of the property is false of the code as it is: the written text of a 3′-partial
 span is `a..b>`, not INSDC's `a..>b` (known finding C02-writer-3prime, pinned by the suite).
-That clause is proved under the hypothesis `NoGt` excluding exactly that class, with a
-kernel-checked counterexample inside the class.
+Everything else about the written text is proved at full strength through the lenient
+recogniser (`build_is_insdc_lenient`: valid syntax but for that placement, same bases, same
+partial ends); strict validity is proved under `NoGt`, which excludes exactly that class, with
+a kernel-checked counterexample inside the class.
 -/
 namespace PolyVerif.Props.C02
 open PolyVerif PolyVerif.Location PolyVerif.Insdc PolyVerif.Lemmas.Location
@@ -23,12 +28,27 @@ instance (l : Loc) (n : Nat) : Decidable (InRange l n) := by unfold InRange; inf
 instance (l : Loc) : Decidable (Arity l) := by unfold Arity; infer_instance
 instance (l : Loc) : Decidable (NoGt l) := by unfold NoGt; infer_instance
 
+/-! ### the family of assembled structures -/
+
+/-- the canonical structure, the `Join == false` / wrapper-complement variants the driver sends to
+AddFeature, and the structure the parser builds are all members of the family `Rep · l` -/
+theorem embed_represents (l : Loc) (ha : Arity l) : Rep (embed l) l := rep_embed l ha
+
+theorem embedV_represents (joinFlag wrap : Bool) (l : Loc) (ha : Arity l) : Rep (embedV joinFlag wrap l) l :=
+  rep_embedV joinFlag wrap l ha
+
+theorem parsed_represents (l : Loc) (ha : Arity l) : Rep (pembed l) l := rep_pembed l ha
+
 /-! ### evaluation -/
 
-/-- A location assembled as a structure evaluates to its INSDC reading: spans are 1-based
+/-- Any structure that represents a location evaluates to its INSDC reading: spans are 1-based
 inclusive, a single base is one letter, join concatenates in order, complement is the reverse
-complement of the operand (a complement of a complement through a wrapper node), markers do not
-change the bases. -/
+complement of the operand, markers do not change the bases. -/
+theorem eval_assembled (p : PLoc) (l : Loc) (parent : Str) (hp : Rep p l) (h : InRange l parent.length)
+    (ha : Arity l) : getSeq p parent = .ok (denote l parent) :=
+  getSeq_rep parent hp h ha
+
+/-- the canonical structure (no arity condition needed) -/
 theorem eval_embed (l : Loc) (parent : Str) (h : InRange l parent.length) :
     getSeq (embed l) parent = .ok (denote l parent) := by
   rw [embed_eq_embedW]
@@ -52,12 +72,11 @@ theorem eval_parse (l : Loc) (parent : Str) (h : InRange l parent.length) (ha : 
 /-- The parser records the partial markers of every span, in the order written. -/
 theorem partial_flags (l : Loc) (n : Nat) (h : InRange l n) (ha : Arity l) :
     (parseLocation (print l)).map pends = .ok (ends l) := by
-  rw [parsed_structure l n h ha, pembed_eq_embedW l]
-  exact congrArg Outcome.ok (pends_embedW wParse l ha)
+  rw [parsed_structure l n h ha]
+  exact congrArg Outcome.ok (pends_rep (rep_pembed l ha) ha)
 
-theorem partial_flags_embed (l : Loc) (ha : Arity l) : pends (embed l) = ends l := by
-  rw [embed_eq_embedW]
-  exact pends_embedW wNone l ha
+theorem partial_flags_assembled (p : PLoc) (l : Loc) (hp : Rep p l) (ha : Arity l) : pends p = ends l :=
+  pends_rep hp ha
 
 /-! ### written text -/
 
@@ -67,36 +86,48 @@ theorem print_is_insdc (l : Loc) (n : Nat) (h : InRange l n) (ha : Arity l) :
     insdcParse (print l) = some l :=
   insdcParse_print l n h ha
 
-theorem written_ok (w : Loc → Bool × Bool) (l : Loc) (n : Nat) (h : InRange l n) (ha : Arity l) (hg : NoGt l) :
-    ∃ l', insdcParse (buildLoc (embedW w l)) = some l' ∧ (∀ p, denote l' p = denote l p) ∧ ends l' = ends l := by
+/-- A location written back to text — from ANY structure representing it — is INSDC syntax up to
+the placement of 3′ markers (read by the lenient recogniser), and denotes the same bases and the
+same partial ends.  Full strength. -/
+theorem build_is_insdc_lenient (p : PLoc) (l : Loc) (n : Nat) (hp : Rep p l) (h : InRange l n) (ha : Arity l) :
+    ∃ l', insdcLenient (buildLoc p) = some l' ∧ (∀ q, denote l' q = denote l q) ∧ ends l' = ends l := by
   refine ⟨norm l, ?_, denote_norm l, ends_norm l⟩
-  rw [buildLoc_embedW w l ha hg]
-  exact insdcParse_print (norm l) n (inRange_norm l n h) (arity_norm l ha)
+  rw [buildLoc_rep hp ha]
+  exact insdcLenient_tprint true (norm l) n (inRange_norm l n h) (arity_norm l ha)
 
 /- Full statement (FALSE of the code, see `build_3prime_witness`):
-     ∀ l, InRange l n → Arity l →
-       ∃ l', insdcParse (buildLoc (embed l)) = some l' ∧ denote l' = denote l ∧ ends l' = ends l
+     ∀ p l, Rep p l → InRange l n → Arity l →
+       ∃ l', insdcParse (buildLoc p) = some l' ∧ denote l' = denote l ∧ ends l' = ends l
    Proved for every l without a 3′-partial span. -/
-theorem build_is_insdc_partial (l : Loc) (n : Nat) (h : InRange l n) (ha : Arity l) (hg : NoGt l) :
-    ∃ l', insdcParse (buildLoc (embed l)) = some l' ∧ (∀ p, denote l' p = denote l p) ∧ ends l' = ends l := by
-  rw [embed_eq_embedW]
-  exact written_ok wNone l n h ha hg
+theorem build_is_insdc_partial (p : PLoc) (l : Loc) (n : Nat) (hp : Rep p l) (h : InRange l n) (ha : Arity l)
+    (hg : NoGt l) :
+    ∃ l', insdcParse (buildLoc p) = some l' ∧ (∀ q, denote l' q = denote l q) ∧ ends l' = ends l := by
+  refine ⟨norm l, ?_, denote_norm l, ends_norm l⟩
+  have hn : hasGt (norm l) = false := by rw [hasGt_norm]; exact hg
+  rw [buildLoc_rep hp ha, tprint_noGt _ hn, tprint_false]
+  exact insdcParse_print (norm l) n (inRange_norm l n h) (arity_norm l ha)
 
 /-- the same for a location parsed from text and written back -/
+theorem build_parsed_is_insdc_lenient (l : Loc) (n : Nat) (h : InRange l n) (ha : Arity l) :
+    ∃ p l', parseLocation (print l) = .ok p ∧ insdcLenient (buildLoc p) = some l' ∧
+      (∀ q, denote l' q = denote l q) ∧ ends l' = ends l := by
+  obtain ⟨l', h1, h2, h3⟩ := build_is_insdc_lenient (pembed l) l n (rep_pembed l ha) h ha
+  exact ⟨pembed l, l', parsed_structure l n h ha, h1, h2, h3⟩
+
 theorem build_parsed_is_insdc_partial (l : Loc) (n : Nat) (h : InRange l n) (ha : Arity l) (hg : NoGt l) :
     ∃ p l', parseLocation (print l) = .ok p ∧ insdcParse (buildLoc p) = some l' ∧
       (∀ q, denote l' q = denote l q) ∧ ends l' = ends l := by
-  obtain ⟨l', h1, h2, h3⟩ := written_ok wParse l n h ha hg
-  exact ⟨pembed l, l', parsed_structure l n h ha, by rw [pembed_eq_embedW l]; exact h1, h2, h3⟩
+  obtain ⟨l', h1, h2, h3⟩ := build_is_insdc_partial (pembed l) l n (rep_pembed l ha) h ha hg
+  exact ⟨pembed l, l', parsed_structure l n h ha, h1, h2, h3⟩
 
 /-- known finding C02-writer-3prime: the 3′-partial span `3..>7` is written `3..7>`, which is
 not INSDC syntax -/
 theorem build_3prime_witness :
-    ¬ (∀ (l : Loc) (n : Nat), InRange l n → Arity l →
-        ∃ l', insdcParse (buildLoc (embed l)) = some l' ∧ (∀ p, denote l' p = denote l p) ∧ ends l' = ends l) := by
+    ¬ (∀ (p : PLoc) (l : Loc) (n : Nat), Rep p l → InRange l n → Arity l →
+        ∃ l', insdcParse (buildLoc p) = some l' ∧ (∀ q, denote l' q = denote l q) ∧ ends l' = ends l) := by
   intro h
-  obtain ⟨l', h1, _⟩ := h (.span 3 7 false true) 7 (by decide) (by decide)
-  have hn : insdcParse (buildLoc (embed (.span 3 7 false true))) = none := by decide
+  obtain ⟨l', h1, _⟩ := h _ (.span 3 7 false true) 7 (Rep.span 3 7 false true) (by decide) (by decide)
+  have hn : insdcParse (buildLoc ⟨(3 : Nat) - 1, (7 : Nat), false, false, false, true, []⟩) = none := by decide
   rw [hn] at h1
   cases h1
 
@@ -115,6 +146,13 @@ example : getSeq (embed (.compl (.compl sample))) "ACGTTGCAAC".toList = .ok "ACG
 
 example : buildLoc (embed sample) = "join(<1..3,complement(join(5..5,6..8)),10..10,complement(2..4))".toList := by decide
 example : buildLoc (embed (.span 3 7 false true)) = "3..7>".toList := by decide
-example : (insdcParse "3..>7".toList).isSome = true ∧ insdcParse "3..7>".toList = none ∧ insdcParse "join(1..2)".toList = none := by decide
+example : (insdcParse "3..>7".toList).isSome = true ∧ insdcParse "3..7>".toList = none ∧ insdcParse "join(1..2)".toList = none
+    ∧ insdcParse "03..7".toList = none ∧ (insdcLenient "3..7>".toList).isSome = true ∧ insdcLenient "3..>7>".toList = none := by decide
+/-- the two-part feature of poly_test.go (`Join == false`, second part complemented) is in the family -/
+example : Rep ⟨0, 0, false, false, false, false, [⟨0, 3, false, false, false, false, []⟩, ⟨3, 6, true, false, false, false, []⟩]⟩
+    (.join [.span 1 3 false false, .compl (.span 4 6 false false)]) :=
+  Rep.join 0 0 false false false _ _ (Or.inr (by decide))
+    (RepList.cons _ _ _ _ (Rep.span 1 3 false false)
+      (RepList.cons _ _ _ _ (Rep.merged 3 6 false false false [] _ (Rep.span 4 6 false false)) RepList.nil))
 
 end PolyVerif.Props.C02
